@@ -8,7 +8,7 @@ ID = 'C06'
 RULE = ('one record per one-shot encrypt / decrypt or per incremental history (add_data*, to_encryption|to_decryption, encrypt|encrypt_mut|'
         'decrypt|decrypt_mut*, finalize); ciphertext, tag, plaintext and verdict must equal the RFC 8439 composition; AAD and data lengths '
         'from {0,1,15,16,17,31,32,33,63,64,65}^2 plus random; key lengths 16/32; rounds 20 (8,12 via the generic contexts); partitions: whole, '
-        'bytewise, random (mixing in-place and buffer-to-buffer); ciphertexts solved so that the Poly1305 accumulator hits extreme limb / carry patterns; AAD of 2^32+5 bytes; distinct = (op, rounds, keylen, aad length, data length, partition shape)')
+        'bytewise, random (mixing in-place and buffer-to-buffer, continuing on clones of the context taken at any point); ciphertexts solved so that the Poly1305 accumulator hits extreme limb / carry patterns; AAD of 2^32+5 bytes; one message of more than 65535 blocks; distinct = (op, rounds, keylen, aad length, data length, partition shape)')
 ASSUMPTIONS = ['ChaCha20, Poly1305 models of C03/C05; composition pinned by RFC 8439 2.8.2']
 FLOORS = {'evaluations': 2000, 'distinct': 1500}
 THOROUGH_ROUNDS = 30   # thorough tier: generator passes with derived seeds (runner.gen_rounds)
@@ -30,6 +30,8 @@ def partition(rng, data, kinds, style):
     steps = []
     for a, b in zip(cuts, cuts[1:]):
         steps.append('%s.%s' % (rng.choice(kinds), data[a:b].hex() or '-'))
+        if style == 'random' and rng.below(5) == 0:
+            steps.append('cl')       # continue on a clone of the context (AAD phase or data phase, possibly in the middle of a block)
     return steps
 
 
@@ -95,6 +97,12 @@ def gen(tier, seed):
     for n in (0x10005, 0x1000010):      # moderate sizes through the same path (also checked against the plain model below)
         key, nonce = rng.bytes(16), rng.bytes(12)
         yield 'aead_inc 20 %s %s az.%d.%d E em.%s fin' % (key.hex(), nonce.hex(), n, 4099, rng.bytes(20).hex())
+    # a message longer than 65535 blocks (4 MiB): the block counter has to carry out of its low 16 bits (and bytes) inside one message
+    key, nonce = rng.bytes(32), rng.bytes(12)
+    yield 'aead_enc 20 %s %s %s %s #huge' % (key.hex(), nonce.hex(), rng.bytes(9).hex(), rng.data(65535 * 64 + rng.rng(65, 300)))
+    if thorough:
+        key, nonce = rng.bytes(16), rng.bytes(12)
+        yield 'aead_inc 20 %s %s a.%s E em.%s e.%s fin #huge' % (key.hex(), nonce.hex(), rng.bytes(3).hex(), rng.data(65536 * 64 - 7), rng.data(150))
     # larger random sizes
     for _ in range(150 if thorough else 25):
         kl = rng.choice([16, 32]); key, nonce = rng.bytes(kl), rng.bytes(12)
@@ -114,9 +122,9 @@ def shape(line):
     f = line.split()
     if f[0] == 'aead_inc':
         al = sum(spec_len(s[2:]) for s in f[4:] if s.startswith('a.')) + sum(int(s.split('.')[1]) for s in f[4:] if s.startswith('az.'))
-        steps = [s for s in f[4:] if s.split('.')[0] in ('e', 'em', 'd', 'dm')]
-        dl = sum(spec_len(s.split('.')[1]) for s in steps)
-        return (f[0], f[1], spec_len(f[2]), al, dl, tuple((s.split('.')[0], spec_len(s.split('.')[1])) for s in steps))
+        steps = [s for s in f[4:] if s.split('.')[0] in ('e', 'em', 'd', 'dm', 'cl')]
+        dl = sum(spec_len(s.split('.')[1]) for s in steps if s != 'cl')
+        return (f[0], f[1], spec_len(f[2]), al, dl, tuple((s.split('.')[0], spec_len(s.split('.')[1]) if s != 'cl' else 0) for s in steps))
     return (f[0], f[1], spec_len(f[2]), spec_len(f[4]), spec_len(f[5]))
 
 
@@ -129,6 +137,7 @@ def coverage(line, toks):
     out = [f[0] + ':r' + f[1] + ':k' + str(spec_len(f[2]))]
     if f[0] == 'aead_inc':
         pos = 0
+        data_phase = False
         for s in f[4:]:
             p = s.split('.')
             if p[0] in ('e', 'em', 'd', 'dm'):
@@ -136,6 +145,10 @@ def coverage(line, toks):
                 if pos % 64 and pos % 64 + ln > 64:
                     out.append('inc:%s:midblock-cross' % p[0])
                 pos += ln
+            elif p[0] in ('E', 'D'):
+                data_phase = True
+            elif p[0] == 'cl':
+                out.append('inc:clone:%s' % ('aad-phase' if not data_phase else ('midblock' if pos % 64 else 'block-boundary')))
     return out
 
 
